@@ -23,6 +23,7 @@ fn main() {
         "jt-replay" => jt::replay(&args),
         "jt-record" => jt::record(&args),
         "lg-record" => lg::record(&args),
+        "lg-record-beh" => lg::record_beh(&args),
         "st-record" => st::record(&args),
         "lz-record" => lz::record(&args),
         "lc-replay" => lc::replay(&args),
